@@ -71,3 +71,68 @@ fn c06_o1_compute_search_k() {
 fn c06_o1_compute_search_k__witness() {
     search_k_body(true);
 }
+
+// ---- C03 O3.1 / C15 O15.4: the pre-log validation of HnswBackend::insert is at least as strict
+// as the index's own acceptance test.  The harness performs exactly the validating calls that
+// `insert` makes before `WalWriter::append` (this list is pinned by the mirflow obligation
+// O3.1/pinned: each call below must precede the append in `insert`, and `insert` must make no
+// validating call the harness omits), then the real `HnswVectorIndex::add_vector` on an index with
+// a no-op backend that is not full.  preflight Ok  ==>  add_vector Ok.
+fn preflight_body<const DIM: usize>(distance: DistanceMetric, witness: bool) {
+    let a: [f32; DIM] = kani::any();
+    let mut v: Vec<f32> = Vec::with_capacity(DIM);
+    let mut i = 0;
+    while i < DIM {
+        v.push(a[i]);
+        i += 1;
+    }
+    let disable: bool = kani::any();
+    let mut index = crate::hnsw_index::verif_proofs::index_with_noop_backend(DIM, 8, 0, distance, disable);
+    // --- the pre-flight of HnswBackend::insert (dimension test is trivially satisfied here) ---
+    let pre = preflight_insert(&index, distance, &mut v);
+    if witness {
+        kani::cover!(pre.is_ok(), "pre-flight accepts some vector");
+        kani::cover!(pre.is_err(), "pre-flight rejects some vector");
+        std::mem::forget(pre);
+        std::mem::forget(index);
+        return;
+    }
+    if pre.is_ok() {
+        let r = index.add_vector(0, &v);
+        assert!(r.is_ok(), "C03: a vector accepted by the pre-log validation is accepted by the index (no rejection after the WAL append)");
+        std::mem::forget(r);
+    }
+    std::mem::forget(pre);
+    std::mem::forget(index);
+}
+
+include!(concat!(env!("VERIF_HARNESS_DIR"), "/hnsw_backend_preflight.in.rs"));
+
+macro_rules! preflight_harness {
+    ($name:ident, $wname:ident, $dim:expr, $metric:expr) => {
+        #[kani::proof]
+        #[kani::unwind(6)]
+        #[kani::stub(std::fmt::format, crate::verif_support::fmt_format_stub)]
+        #[kani::stub(std::backtrace::Backtrace::capture, crate::verif_support::backtrace_capture_stub)]
+        #[kani::stub(crate::simd::detect_best_f32_kernels, crate::simd::verif_proofs::scalar_table)]
+        fn $name() {
+            preflight_body::<$dim>($metric, false);
+        }
+        #[kani::proof]
+        #[kani::unwind(6)]
+        #[kani::stub(std::fmt::format, crate::verif_support::fmt_format_stub)]
+        #[kani::stub(std::backtrace::Backtrace::capture, crate::verif_support::backtrace_capture_stub)]
+        #[kani::stub(crate::simd::detect_best_f32_kernels, crate::simd::verif_proofs::scalar_table)]
+        fn $wname() {
+            preflight_body::<$dim>($metric, true);
+        }
+    };
+}
+
+preflight_harness!(c03_o1_preflight_euclidean_d1, c03_o1_preflight_euclidean_d1__witness, 1, DistanceMetric::Euclidean);
+preflight_harness!(c03_o1_preflight_euclidean_d2, c03_o1_preflight_euclidean_d2__witness, 2, DistanceMetric::Euclidean);
+preflight_harness!(c03_o1_preflight_cosine_d1, c03_o1_preflight_cosine_d1__witness, 1, DistanceMetric::Cosine);
+preflight_harness!(c03_o1_preflight_cosine_d2, c03_o1_preflight_cosine_d2__witness, 2, DistanceMetric::Cosine);
+preflight_harness!(c03_o1_preflight_inner_product_d2, c03_o1_preflight_inner_product_d2__witness, 2, DistanceMetric::InnerProduct);
+preflight_harness!(c03_o1_preflight_euclidean_d4, c03_o1_preflight_euclidean_d4__witness, 4, DistanceMetric::Euclidean);
+preflight_harness!(c03_o1_preflight_cosine_d3, c03_o1_preflight_cosine_d3__witness, 3, DistanceMetric::Cosine);
